@@ -483,6 +483,8 @@ func genC30(t *Tape) *Plan {
 	cfg := &g.plan.Cfg
 	GenSchedConfig(t, cfg)
 	cfg.TopicAliasMax = 4
+	// compatibility options that touch reason codes must not change how invalid filters are answered
+	cfg.Obscure = t.Draw("c30.obscure", 3) == 0
 	for s := 0; s < k.Slots; s++ {
 		g.Connect(s)
 	}
